@@ -15,7 +15,7 @@ CHECKS["C04"] = {
         {"name": "c04", "pkg": "c04", "run": "^Test", "shards": 12,
          "fuzz": [{"name": "FuzzHijack", "seconds": 300}]},
     ],
-    "expect_checks": ["c04.hijack", "c04.exhaustive", "c04.slow"],
+    "expect_checks": ["c04.hijack", "c04.exhaustive", "c04.slow", "c04.e2e"],
 }
 
 # properties not claimed, with reasons (kept current)
